@@ -5,6 +5,7 @@ import ComposeVerif.Model.Validate
 import ComposeVerif.Model.NormalizeDeps
 import ComposeVerif.Model.ConsistencyGlue
 import ComposeVerif.Model.Merge
+import ComposeVerif.Model.ValidateCast
 /-! line-protocol ops for C10:
 `c10.consistency` (model of `loader.checkConsistency` + outcomes over all iteration orders + spec decision),
 `c10.cycleBatch` (model of `graph.CheckCycle` over a range of digraphs),
@@ -195,9 +196,38 @@ def mergeValidateOp : Handler := fun args =>
     | .panic s => Json.mkObj [("merge", Json.str ("panic:" ++ s))]
   | _, _ => Json.mkObj [("bad", Json.str "tree")]
 
+def vclass : CV.Validate.VOut → String
+  | .ok => "ok"
+  | .err _ => "structural"
+  | .panic s => "panic:" ++ s
+
+/-- a whole load with both checks on under an option set that changes the shape the structural stage sees
+(`SkipInterpolation`: the cast of `external` has not run): predicted class from the resource tree as written and the model
+of `checkConsistency` on the project loaded with both checks skipped -/
+def optLoadOp : Handler := fun args =>
+  let p := projOfJson (getObj args "proj")
+  match CV.Val.ofJson (getObj args "tree") with
+  | .error e => Json.mkObj [("bad", e)]
+  | .ok t =>
+    let seen := CV.Validate.seenByValidate (getBool args "skip_interpolation") t
+    let v := vclass (CV.Validate.validate seen)
+    let c := match checkConsistency p with | none => "ok" | some _ => "consistency"
+    Json.mkObj [("pred", Json.str (Glue.combine {} v c)), ("v", Json.str v), ("c", Json.str c),
+                ("vraw", Json.str (vclass (CV.Validate.validate t))),
+                ("vcast", Json.str (vclass (CV.Validate.validate (CV.Validate.castTop t))))]
+
+/-- the cast in front of the structural stage: `castTop` against the real `interp.Interpolate` with the loader's cast table,
+and the verdicts of `validate` on the raw and on the cast tree -/
+def castValidateOp : Handler := fun args =>
+  match CV.Val.ofJson (getObj args "tree") with
+  | .error e => Json.mkObj [("bad", e)]
+  | .ok t =>
+    Json.mkObj [("castable", Json.bool (CV.Validate.castableTop t)), ("cast", CV.Val.toJson (CV.Validate.castTop t)),
+                ("vraw", voutJson (CV.Validate.validate t)), ("vcast", voutJson (CV.Validate.validate (CV.Validate.castTop t)))]
+
 def handlers : List (String × Handler) :=
   [("c10.consistency", consistency), ("c10.cycle", cycle), ("c10.consistent", consistent),
    ("c10.cycleBatch", cycleBatch), ("c10.validate", validateOp), ("c10.normDeps", normDepsOp), ("c10.cyclePath", cyclePathOp),
-   ("c10.glue", glueOp), ("c10.mergeValidate", mergeValidateOp)]
+   ("c10.glue", glueOp), ("c10.mergeValidate", mergeValidateOp), ("c10.optload", optLoadOp), ("c10.castValidate", castValidateOp)]
 
 end CV.Ops.C10
